@@ -285,6 +285,28 @@ CHAIN_LOOKUPS = [_t(x) for x in ('x', 'X', 'a/x', 'A' + BS + 'X', 'ab/x', 'a/b/x
 CHAIN_FOLDERS = [_t(x) for x in ('', 'a', 'A', 'ab', 'a/b', 'a' + BS + 'b', 'b', 'x')]
 
 
+PREFIX_SPELLINGS = ['plain', 'trail', 'dot', 'dbl', 'back']
+
+
+def spell_prefix(comps: list, how: str) -> str:
+    """One text for a prefix given as components.  All of them denote the same sub-folder."""
+    if not comps:
+        return ''
+    if how == 'trail':
+        return '/'.join(comps) + '/'
+    if how == 'dot':
+        return './' + '/'.join(comps)
+    if how == 'dbl':      # doubled separator (after the only component when there is one)
+        return '//'.join(comps) if len(comps) > 1 else comps[0] + '//'
+    if how == 'back':     # the other slash (trailing when there is only one component)
+        return BS.join(comps) if len(comps) > 1 else comps[0] + BS
+    return '/'.join(comps)
+
+
+def spelled(m: dict) -> str:
+    return m['pfxs'] if 'pfxs' in m else '/'.join(m['pfx'])
+
+
 def chain_record(fac: Factory, pre: list, act: dict, lookups: list, folders: list, src: str) -> dict:
     """pre: members [{names, pfx, k, backend}] of the chain before; act: the add_sys call
     {names, pfx, pr, k, backend}.  Members' contents are 'k<k>:<name>'."""
@@ -300,14 +322,14 @@ def chain_record(fac: Factory, pre: list, act: dict, lookups: list, folders: lis
         files, fs = member(m)
         spies[m['k']] = Spy(fs, log, m['k'])
         mem_files[m['k']] = files
-        chain.add_sys(spies[m['k']], '/'.join(m['pfx']))
+        chain.add_sys(spies[m['k']], spelled(m))
     files, fs = member(act)
     spies[act['k']] = Spy(fs, log, act['k'])
     mem_files[act['k']] = files
-    chain.add_sys(spies[act['k']], '/'.join(act['pfx']), priority=act['pr'])
+    chain.add_sys(spies[act['k']], spelled(act), priority=act['pr'])
     order = [s.idx for s, _ in chain.systems]
     by_k = {m['k']: m for m in pre + [act]}
-    members = [{'k': k, 'backend': by_k[k]['backend'], 'pfx': list(by_k[k]['pfx']), 'footer': bool(by_k[k].get('footer', False)),
+    members = [{'k': k, 'backend': by_k[k]['backend'], 'pfx': list(by_k[k]['pfx']), 'pfxs': spelled(by_k[k]), 'footer': bool(by_k[k].get('footer', False)),
                 'files': [[c, cid] for c, cid in mem_files[k]]} for k in order]
     pos = {k: i + 1 for i, k in enumerate(order)}
 
@@ -319,7 +341,6 @@ def chain_record(fac: Factory, pre: list, act: dict, lookups: list, folders: lis
             ent = dict(ent)
             k = ent.pop('m')
             ent['m'] = pos[k]
-            ent['argc'] = split_both(ent['arg'])
             del ent['op']
             out.append(ent)
         log.clear()
@@ -364,7 +385,7 @@ def chain_record(fac: Factory, pre: list, act: dict, lookups: list, folders: lis
     comps = all_comps([f for k in order for f in mem_files[k]], lookups + folders)
     comps += [c for w in wks for it in w['items'] + w['rep'] for c in it['n']]
     comps += [c for m in members for c in m['pfx']]
-    comps += [c for q in lks + wks for cl in q['calls'] for c in cl['argc']]
+    comps += [c for q in lks + wks for cl in q['calls'] for c in split_both(cl['arg'])]
     comps += [c for w in wks for cl in w['calls'] for it in cl['items'] for c in it['n']]
     return {'k': 'chain', 'src': src, 'pre': [m['k'] for m in pre],
             'act': {'k': act['k'], 'pr': act['pr'], 'pfx': list(act['pfx'])}, 'order': order,
@@ -390,9 +411,12 @@ def replay_edges(out: hlib.RecWriter, fac: Factory, edge_file: str, stats: dict,
             continue
         a = e['a']
         k_new = len(e['s']) + 1
-        pre = [{'names': sorted(m['names']), 'pfx': list(m['pfx']), 'k': m['k'],
+        def how(k):
+            return PREFIX_SPELLINGS[zlib.crc32(f'{seed}:{ei}:{k}:pfx'.encode()) % len(PREFIX_SPELLINGS)]
+        pre = [{'names': sorted(m['names']), 'pfx': list(m['pfx']), 'k': m['k'], 'pfxs': spell_prefix(list(m['pfx']), how(m['k'])),
                 'backend': pick_backend(f'{seed}:{ei}:{m["k"]}', m['names'])} for m in e['s']]
         act = {'names': sorted(a['names']), 'pfx': list(a['pfx']), 'pr': a['pr'], 'k': k_new,
+               'pfxs': spell_prefix(list(a['pfx']), how(k_new)),
                'backend': pick_backend(f'{seed}:{ei}:{k_new}', a['names'])}
         rec = chain_record(fac, pre, act, CHAIN_LOOKUPS, CHAIN_FOLDERS, 'edge')
         rec['want'] = [m['k'] for m in e['t']]
@@ -441,7 +465,15 @@ def random_tier(out: hlib.RecWriter, fac: Factory, rng: random.Random, n_fs: int
             b = rng.choice(BACKENDS)
             if b == 'raw' and not unambiguous([(n, '') for n in names]):
                 b = rng.choice(['virtual', 'zip', 'vpk'])
-            mems.append({'names': sorted(names), 'pfx': list(rng.choice(R_PREFIXES)), 'k': k, 'backend': b,
+            pfx = list(rng.choice(R_PREFIXES))
+            if pfx and rng.random() < 0.5:      # free-form spelling: './', any separator between, any tail
+                pfxs = rng.choice(['', './', '.' + BS]) + pfx[0]
+                for c in pfx[1:]:
+                    pfxs += rng.choice(['/', '/', '//', BS, '/./']) + c
+                pfxs += rng.choice(['', '/', '//', BS, '/.'])
+            else:
+                pfxs = spell_prefix(pfx, rng.choice(PREFIX_SPELLINGS))
+            mems.append({'names': sorted(names), 'pfx': pfx, 'pfxs': pfxs, 'k': k, 'backend': b,
                          'footer': rng.random() < 0.5})
         # build by a random insertion history: the record checks the last add_sys
         pre_order = []
@@ -483,6 +515,7 @@ def main() -> None:
                                 [w['toks'] for w in rec['walks']], 'replay', rec.get('footer', False))
             else:
                 by_k = {m['k']: {'names': [f[0] for f in m['files']], 'pfx': m['pfx'], 'k': m['k'],
+                                 'pfxs': m.get('pfxs', '/'.join(m['pfx'])),
                                  'backend': m['backend'], 'footer': m.get('footer', False)} for m in rec['members']}
                 pre = [by_k[k] for k in rec['pre']]
                 act = dict(by_k[rec['act']['k']], pr=rec['act']['pr'])
